@@ -14,8 +14,8 @@ LANGS = ["kotlin", "java", "groovy", "scala"]
 VAR = {0: "Inv", 1: "Cov", 2: "Contra"}
 ARRAY_CID = 90
 FUNC_CID = 91           # Function0 = 91, Function1 = 92, ...
-MAX_FUNC = 3
-EXTRA_CID = 96          # further generic built-in classes (Kotlin SpecializedArrayType, Scala Seq)
+MAX_FUNC = 8
+EXTRA_CID = 100         # further generic built-in classes (Kotlin SpecializedArrayType, Scala Seq)
 
 
 class Lang:
@@ -132,7 +132,7 @@ class Lang:
         for cid, con in self.gen_cons.items():
             params = []
             for k, p in enumerate(con.type_parameters):
-                params.append(("V", cid * 10 + k, p.variance.value, None))
+                params.append(("V", 300 + (cid - ARRAY_CID) * 10 + k, p.variance.value, None))
             sups = [self.term_of_builtin(s) for s in con.supertypes]
             out[cid] = (params, sups)
         self._bclasses = out
